@@ -63,6 +63,52 @@ def arg_of(n, aliases):
     return None
 
 
+_F = None
+
+
+def helper_result(x, kinds, aliases):
+    """abstract result of `args[i].helper()` for the kind the vector gives args[i], when `helper` is a function of the
+    repository whose body is a `match self { Variant.. => .. }`: 'true' / 'false' / 'Some' / 'None', or None (unknown)"""
+    x = H.strip(x)
+    if x.get("k") != "mcall" or _F is None:
+        return None
+    r = H.strip(x["recv"])
+    while r.get("k") == "mcall" and r["m"] in ("as_ref", "clone", "borrow", "deref"):
+        r = H.strip(r["recv"])
+    i = arg_of(r, aliases)
+    if i is None or i >= len(kinds):
+        return None
+    g = _F.fn(x.get("callee") or "")
+    if g is None or H.body_of(g) is None:
+        return None
+    m = T.top_match(g)
+    if m is None or H.render(H.strip(m["scrut"])) not in ("self", "*self"):
+        b = H.strip(H.body_of(g))
+        while b.get("k") == "block" and not b.get("stmts") and b.get("expr") is not None:
+            b = H.strip(b["expr"])
+        if b.get("k") == "match" and b.get("src") == "Normal" and H.render(H.strip(b["scrut"])) in ("self", "*self"):
+            m = b
+        else:
+            return None
+    for a in m["arms"]:
+        vs = {H.last(v) for v in H.pat_variants(a["pat"])}
+        if kinds[i] in vs or "*" in vs:
+            if a.get("guard") is not None:
+                return None
+            b = H.strip(a["body"])
+            while b.get("k") == "block" and not b.get("stmts") and b.get("expr") is not None:
+                b = H.strip(b["expr"])
+            if b.get("k") == "lit" and b.get("lk") == "bool":
+                return "true" if b["v"] else "false"
+            c = H.last(H.ctor_of(b) or "")
+            if c in ("Some", "None"):
+                return c
+            if b.get("k") == "path" and H.last(b["res"].get("path") or "") == "None":
+                return "None"
+            return None
+    return None
+
+
 def outcomes(body, n, kinds):
     """set of outcomes {'ok','err'} reachable for arity n and kind vector `kinds`"""
     out = set()
@@ -111,6 +157,18 @@ def outcomes(body, n, kinds):
                 if i is not None and i < len(kinds):
                     pk = pat_kind(cs["pat"])
                     v = (kinds[i] in pk) or ("*" in pk)
+                else:
+                    hr = helper_result(cs["init"], kinds, aliases)
+                    if hr in ("Some", "None"):
+                        v = hr in pat_kind(cs["pat"])
+            if v is None:
+                neg = False
+                cc = cs
+                while cc.get("k") == "un" and cc.get("op") == "!":
+                    neg, cc = not neg, H.strip(cc["e"])
+                hr = helper_result(cc, kinds, aliases)
+                if hr in ("true", "false"):
+                    v = (hr == "true") != neg
             if v is True:
                 return value(x["t"])
             if v is False:
@@ -126,6 +184,13 @@ def outcomes(body, n, kinds):
                     if kinds[i] in pk or "*" in pk:
                         return value(a["body"])
                 return True
+            hr = helper_result(x["scrut"], kinds, aliases)
+            if hr is not None:
+                for a in x["arms"]:
+                    pk = pat_kind(a["pat"])
+                    lit = H.strip(a["pat"]).get("lit", {}).get("v") if a["pat"].get("k") == "plit" else None
+                    if hr in pk or "*" in pk or (lit is True and hr == "true") or (lit is False and hr == "false") or a["pat"].get("k") in ("wild", "bind"):
+                        return value(a["body"])
             cont = False
             for a in x["arms"]:
                 cont = value(a["body"]) or cont
@@ -182,6 +247,8 @@ def outcomes(body, n, kinds):
 
 
 def run(F, R, tier):
+    global _F
+    _F = F
     R.explanation = EXPL
     R.assumptions += ["A5: tables/doc_kinds.json is a correct transcription of docs/language/builtins.md (each row quotes its sentence)"]
     tab = builtin_table(F, R)
@@ -254,6 +321,21 @@ def run(F, R, tier):
                 if acc and not want and o == {"ok"}:
                     det += " — a wrong kind is accepted silently"
                 R.ob("builtin-kind", "%s arg%d %s" % (name, pos, k), acc == want, det, F.loc(g), nontrivial=(acc or want))
+        # joint rows: the kinds one position accepts may depend on the kind at another (`get(array, index)` takes an
+        # integer index, `get(map, key)` any key)
+        for row in spec.get("joint", []):
+            wpos, wkind = int(row["when"][0]), row["when"][1]
+            pos = int(row["pos"])
+            for k in kinds_all:
+                kv = [(ks[0] if ks != "any" else "Integer") for ks in spec["args"][:n]]
+                kv[wpos], kv[pos] = wkind, k
+                o = outcomes(body, n, kv)
+                acc = "ok" in o
+                want = k in row["kinds"]
+                n_cells += 1
+                det = "%s(%s): %s; documented for %s at position %d: %s" % (
+                    name, ", ".join(kv), "can succeed" if acc else ("only errors" if o == {"err"} else "outcomes %s" % sorted(o)), wkind, pos, row["kinds"])
+                R.ob("builtin-kind", "%s arg%d %s (arg%d %s)" % (name, pos, k, wpos, wkind), acc == want, det, F.loc(g), nontrivial=(acc or want))
     R.count("acceptance cells evaluated", n_cells)
     R.floor("acceptance cells", n_cells, 500)
     # ---- (b) args[k] behind arity tests: E1 over the builtin functions ----------------------------------------------------------
